@@ -4,9 +4,8 @@
 // replayed cases, and writes "<model input line>\t<implementation output>".
 //
 //	-mode unit   claims, X.509 and SSH modifier+validator chains built from the hook constructors
-//	-mode prov   real JWK / X5C provisioners: AuthorizeSign / AuthorizeSSHSign with real tokens,
-//	             options applied in the order Authority.Sign / signSSH applies them
-//	-mode e2e    real Authority: Sign, Renew, SignSSH, RenewSSH, RekeySSH; ACME NewOrder dates
+//	-mode e2e    real embedded Authority with real JWK / X5C provisioners and tokens: Authorize, Sign,
+//	             Renew, SignSSH, RenewSSH, RekeySSH (SoftCAS and SSH signers included)
 //	-mode prop   oracle: the property predicate itself evaluated on the implementation's output
 //	             (third column = expected "ok")
 package main
@@ -51,9 +50,8 @@ func emit(o *c.Out, k *Case) {
 		line, impl, exp := k.SSH.run(mode)
 		write(o, line+caseField(k), impl, exp)
 	case k.Renew != nil:
-		line, impl, exp := k.Renew.run(mode)
-		if line != "" {
-			write(o, line+caseField(k), impl, exp)
+		for _, li := range k.Renew.runAll() {
+			o.Case(li[0]+caseField(k), li[1])
 		}
 	case k.ACME != nil:
 		line, impl := k.ACME.run()
@@ -65,7 +63,11 @@ func emit(o *c.Out, k *Case) {
 
 func write(o *c.Out, line, impl, exp string) {
 	if mode == "prop" {
-		o.Case(line, impl+"\t"+exp)
+		// oracle stage: expected = "ok" (any ok:<class> verdict is itself fine)
+		if strings.HasPrefix(impl, "ok") {
+			exp = impl
+		}
+		o.Row(line, impl, exp)
 		return
 	}
 	o.Case(line, impl)
@@ -75,7 +77,7 @@ func main() {
 	n := flag.Int("n", 2000, "number of generated cases")
 	out := flag.String("out", "", "output file (input<TAB>impl)")
 	replay := flag.String("replay", "", "file of model input lines (case=… field) to re-run instead of generating")
-	flag.StringVar(&mode, "mode", "unit", "unit | prov | e2e | prop")
+	flag.StringVar(&mode, "mode", "unit", "unit | e2e | prop")
 	flag.Parse()
 	o, err := c.NewOut(*out)
 	if err != nil {
